@@ -72,15 +72,16 @@ def run(ctx):
     rows = []
     for base, name, ov in slices:
         scheds, classes, consts = pc.mc_slice(ctx, base, name, ov, timeout=1500)
-        find, cover = pc.select(ctx, scheds, 3000 if ctx.thorough else 900)
+        find, cover = pc.select(ctx, scheds, None, prefix_free=False)
         cfg = pc.run_cfg_from_consts(consts, strict=False)
         for i, s in enumerate(find + cover):
-            rows.append({"id": "%s-%s%d" % (name, s["kind"][0], i), "cfg": cfg, "sched": s["sched"]})
+            rows.append({"id": "%s-%s%d" % (name, s["kind"][0], i), "cfg": cfg, "sched": s["sched"], "exp": s.get("exp"),
+                         "must": s["kind"] == "finding" and bool(s["c27"])})
         ctx.cov.setdefault("model_c27_classes", [])
         ctx.cov["model_c27_classes"] = sorted(set(ctx.cov["model_c27_classes"]) | classes["c27"])
 
     # 2. the real runs: M2 replays, random 200-event sequences over 20 peers, small random runs
-    trace, res = pc.replay(ctx, binary, rows, "m2")
+    trace, res, rows = pc.replay(ctx, binary, rows, "m2", sample=4000 if ctx.thorough else 600)
     ctx.cov["schedules_replayed"] = len(rows)
     ctx.sample({"tlc_schedule": rows[len(rows) // 2]["sched"]})
     runs = 60 if ctx.thorough else 12
